@@ -5,6 +5,8 @@
 //! sink faults and corrupt blocks. The specification is the single-threaded reader/writer run on the
 //! same script.
 
+mod conformance;
+
 use std::{
     io::{self, BufRead, Cursor, Read, Write},
     sync::Arc,
@@ -744,5 +746,6 @@ fn main() {
             reader_body(ch, &small, &rpools, CostModel::Preempt, false)
         });
         let _ = n_plain;
+        conformance::run(ctx);
     });
 }
